@@ -699,7 +699,7 @@ func c20HandlerSpecPath(specURL string) string {
 
 func c20Gen(r *proto.Rng, n int, tier string, emit func(in ...string)) {
 	bases := []string{"", "", "/", "/base", "base", "/base/", "base/", "/a/b", "//a", "/a/../b", "/.", "/api/v1"}
-	paths := []string{"", "", "docs", "/docs", "docs/", "ui/docs", "../docs", ".", "d.html", "a/./b", "swagger.json"}
+	paths := []string{"", "", "docs", "/docs", "docs/", "ui/docs", "../docs", ".", "d.html", "a/./b", "swagger.json", "/", "//", "/docs/", "/ui/"}
 	cbs := []string{"", "", "", "/cb", "cb", "/docs/cb/", "/a/../cb", ".", "/oauth2/callback"}
 	kinds := []string{"redoc", "rapidoc", "swaggerui", "oauth2"}
 	yes := func(k, d int) string { return proto.Bool(r.Chance(k, d)) }
@@ -800,7 +800,7 @@ func c20Gen(r *proto.Rng, n int, tier string, emit func(in ...string)) {
 					vals = append(vals, v)
 					uiBase = v
 				case 1:
-					v := r.Pick("", "docs", "/docs", "doc/ui", "swagger.json", "../x")
+					v := r.Pick("", "docs", "/docs", "doc/ui", "swagger.json", "../x", "/", "/ui/")
 					ks.WriteByte('p')
 					vals = append(vals, v)
 					if v == "" {
